@@ -194,6 +194,13 @@ def generate(tier, rng):
         yield 'space', {'spec': dict(h, disparity=cfg['disparity'], truncate=cfg['truncate'])}
         if k % 4 == 0:
             yield 'kinds', {'spec': dict(h, disparity=cfg['disparity'], truncate=cfg['truncate'])}
+    # many multi-level simultaneous marks under finite disparity (1D, cheap): every marked level needs its own admissibility cascade
+    for k in range(600 if quick else 3000):
+        d = 1 + k % 2
+        base = {'dim': 1, 'n': 2 + k % 3, 'p': 1 + k % 2, 'disparity': d, 'truncate': bool(k % 5 == 0)}
+        h = hgen.random_history(base, 3 + k % 3, rng, multi_level=True)
+        if any(len(step) > 1 for step in h['history']):
+            yield 'space', {'spec': h}
     # deep, narrow hierarchies with finite disparity >= 2: the admissibility cascade has to reach levels l-d, l-2d, ...
     for k in range(60 if quick else 400):
         d = 2 if k % 4 else 3
